@@ -259,7 +259,13 @@ Definition set_by_index (n : string) (v : aval) (i : nat) : res effect :=
 (* KMIP 2.0 attribute values carry their own tag; [None] = tag with no attribute name (convert_attribute_tag_to_name raises) *)
 Definition tagged := (option string * aval)%type.
 Record del_payload := mkDel { d_name : option string; d_index : option Z; d_current : option tagged; d_ref : option string }.
-Record mod_payload := mkMod { m_attr : option (string * option Z * aval); m_current : option aval; m_new : option tagged }.
+Record mod_payload := mkMod { m_attr : option (string * option Z * aval); m_current : option tagged; m_new : option tagged }.
+Definition cur_val (p : mod_payload) : option aval := option_map snd (m_current p).
+(* KMIP 2.0 ModifyAttribute: Current Attribute and New Attribute must carry the same tag (= name the same attribute) *)
+Definition name_opt_eqb (a b : option string) : bool :=
+  match a, b with Some x, Some y => String.eqb x y | None, None => true | _, _ => false end.
+Definition kind_mismatch (cur : option tagged) (new_name : option string) : bool :=
+  match cur with Some (cn, _) => negb (name_opt_eqb cn new_name) | None => false end.
 Inductive areq :=
 | RDelete (p : del_payload)
 | RModify (p : mod_payload)
@@ -318,12 +324,15 @@ Definition decide_modify (v : version) (o : obj) (p : mod_payload) : res effect 
   if is_v2 v then
     match m_new p with
     | None => Err RCrash
-    | Some (None, _) => Err RCrash
-    | Some (Some n, nv) =>
+    | Some (nn, nv) =>
+    if kind_mismatch (m_current p) nn then Err RInvalidField else
+    match nn with
+    | None => Err RCrash
+    | Some n =>
       if negb (q_modifiable n) then Err RPermissionDenied
       else
         if q_multivalued n then
-          match m_current p with
+          match cur_val p with
           | None => Err RAttrInstanceNotFound
           | Some c =>
             match index_of o n c with
@@ -333,7 +342,7 @@ Definition decide_modify (v : version) (o : obj) (p : mod_payload) : res effect 
             end
           end
         else
-          match m_current p with
+          match cur_val p with
           | None =>
             match get_value o n with GNone => Err RAttrNotFound | _ => set_single o n nv end
           | Some c =>
@@ -343,6 +352,7 @@ Definition decide_modify (v : version) (o : obj) (p : mod_payload) : res effect 
             | Ok (Some _) => set_single o n nv
             end
           end
+    end
     end
   else
     match m_attr p with
